@@ -299,8 +299,11 @@ static void arena_free(Block &b) {
 }
 
 // ------------------------------------------------------------------ tiny slab
+// every tiny block is followed by a 16-byte red zone (0xA5), checked when the block is freed
+static const size_t TINY_RED = 16;
+static inline size_t tiny_class(size_t size) { return (((size ? size : 1) + 15) & ~(size_t)15) + TINY_RED; }
 static void *tiny_alloc(size_t size, size_t align, OpCtx *ctx) {
-	size_t cs = ((size ? size : 1) + 15) & ~(size_t)15;
+	size_t cs = tiny_class(size);
 	size_t al = align < 16 ? 16 : align;
 	if (ctx->heap_policy & HP_REUSE_TINY) {
 		auto it = g_tiny_free.find(std::make_pair(cs, al));
@@ -322,7 +325,8 @@ static void *tiny_alloc(size_t size, size_t align, OpCtx *ctx) {
 	return (void *)(g_tiny_lo + off);
 }
 static void tiny_free(const Block &b) {
-	size_t cs = ((b.size ? b.size : 1) + 15) & ~(size_t)15;
+	size_t cs = tiny_class(b.size);
+	for (size_t i = b.size; i < cs; ++i) if (((const uint8_t *)b.user)[i] != 0xA5) { anomaly("HEAP_OVERRUN", "red_zone_after owner=" + owner_of(b)); break; }
 	memset((void *)b.user, 0xDD, cs);
 	g_tiny_free[std::make_pair(cs, b.align)].push_back(TinyFree{b.user, b.op_name, b.req_ord});
 }
@@ -353,6 +357,7 @@ static void *lib_alloc(OpCtx *ctx, size_t size, size_t align, int kind) {
 			else p = malloc(size ? size : 1);
 			if (!p) { fprintf(stderr, "rxsim: real allocator failed\n"); abort(); }
 			fill_noise(p, size, rt::mix64(g_heap_seed, ++g_alloc_counter));
+			if (in_tiny_zone((uintptr_t)p)) memset((uint8_t *)p + size, 0xA5, tiny_class(size) - size);
 			Block b;
 			b.user = (uintptr_t)p; b.size = size; b.kind = kind; b.state = ST_LIVE; b.align = align < 16 ? 16 : align;
 			b.op_index = ctx->op_index; b.req_ord = ctx->requests; b.op_name = ctx->op_name; b.owner_class = ctx->owner_class;
